@@ -383,6 +383,7 @@ class MultiFit(FitBase):
         self._initialize_fitter()
 
     def _initialize_fitter(self):
+        _old_fitter = getattr(self, "_fitter", None)
         self._fitter = NexusFitter(
             nexus=self._nexus,
             parameters_to_fit=list(self._combined_parameter_node_dict.keys()),
@@ -390,6 +391,7 @@ class MultiFit(FitBase):
             minimizer=self._minimizer,
             minimizer_kwargs=self._minimizer_kwargs,
         )
+        self._restore_fitter_configuration(_old_fitter)
 
     def _add_error_object(self, error_object, reference, name=None, axis=None):
         from ..indexed import IndexedFit
